@@ -256,6 +256,7 @@ Proof.
   - reflexivity.
   - split; intros name; reflexivity.
   - reflexivity.
+  - split; [reflexivity | constructor].
   - exists 10%N, [SLet vI [] (XBin RAdd (XVar vI) (XNum n1))], [TSymbol vI; TEquals; TSymbol vI; TPlus; TNumber n1], [TSymbol vI; TEquals; TSymbol vI; TPlus; TNumber n1].
     repeat split; try reflexivity.
     apply LR_last.
@@ -272,6 +273,70 @@ Proof.
   destruct (rrun 8 ex_p 40 (0,0) (r_init 0)) as [pc st'|st'|er l st'|] eqn:E; try (vm_compute in E; discriminate).
   exists st'. split; [reflexivity|].
   assert (Ho : r_out st' = [bs "1"; bs "2"; bs "3"]).
+  { vm_compute in E. inversion E. reflexivity. }
+  split; [exact Ho|]. unfold after_step in H.
+  eapply reach_bind; [exact H|]. intros s' [A B]. apply reach_now. split; [exact A|]. rewrite B, Ho. reflexivity.
+Qed.
+
+(* non-vacuity of (4) for subroutines:  10 GOSUB 30: PRINT I; / 20 END /
+   30 I = I + 1 / 40 RETURN  — the RETURN lands on the colon after the GOSUB *)
+Definition ex2_lines := [HLine (bs "10 GOSUB 30: PRINT I;"); HLine (bs "20 END"); HLine (bs "30 I = I + 1"); HLine (bs "40 RETURN")].
+Definition ex2_s : interp := set_state Running (snd (run_from_first_numbered_line (StoreProofs.run_state 50 init_interp ex2_lines))).
+Definition n30 : f64 := f64_of_Z 30.
+Definition ex2_p : rprogram :=
+  [(10%N, [SGosub 30%N; SPrint [PExpr (XVar vI); PSemi]]);
+   (20%N, [SEnd]);
+   (30%N, [SLet vI [] (XBin RAdd (XVar vI) (XNum n1))]);
+   (40%N, [SReturn])].
+
+Lemma ex2_line10 : LRen 8 [SGosub 30%N; SPrint [PExpr (XVar vI); PSemi]] ([TGosub; TNumber n30] ++ TColon :: [TPrint; TSymbol vI; TSemicolon]).
+Proof.
+  apply LR_cons; [apply SR_gosub; vm_compute; reflexivity|]. apply LR_last.
+  apply (SR_print 8 [] [PExpr (XVar vI); PSemi] [MExpr (EVar vI); MSemi] [TSymbol vI; TSemicolon]); try reflexivity; try (cbn; lia).
+  apply (IR_expr [] (EVar vI) [TSymbol vI] [MSemi] [TSemicolon]); [apply R0_var | reflexivity|].
+  apply IR_semi. apply IR_nil. reflexivity.
+Qed.
+
+Example ex2_sim : Sim 8 ex2_p [] (0, 0) (r_init 0) ex2_s.
+Proof.
+  apply (Sim_at 8 ex2_p [] 0 0 (r_init 0) ex2_s false).
+  - split; try reflexivity.
+    + repeat constructor.
+    + intros li n stmts H.
+      destruct li as [|[|[|[|li]]]]; cbn in H; try (destruct li; discriminate); inversion H; subst; eexists; (split; [vm_compute; reflexivity|]).
+      * exact ex2_line10.
+      * apply LR_last, SR_end.
+      * apply LR_last.
+        apply (SR_let 8 [] vI (XBin RAdd (XVar vI) (XNum n1)) (EBin (BAddSub OAdd) (EVar vI) (ENum n1)) [TSymbol vI; TPlus; TNumber n1]); try reflexivity; try (cbn; lia).
+        do 3 (apply R_incl; [lia|]).
+        apply (R_bin (BAddSub OAdd) (EVar vI) (ENum n1) [TSymbol vI] [TNumber n1]).
+        -- do 4 (apply R_incl; [cbn; lia|]). constructor.
+        -- do 3 (apply R_incl; [cbn; lia|]). constructor.
+      * apply LR_last, SR_return.
+    + intros n H.
+      assert (E : st_toks ex2_s = [(40%N, [TReturn]); (30%N, [TSymbol vI; TEquals; TSymbol vI; TPlus; TNumber n1]);
+                                  (20%N, [TEnd]);
+                                  (10%N, [TGosub; TNumber n30; TColon; TPrint; TSymbol vI; TSemicolon])]) by (vm_compute; reflexivity).
+      rewrite E in H. cbn [toks_get] in H. cbn [map fst ex2_p In].
+      destruct (N.eqb_spec 40 n); [subst; tauto|]. destruct (N.eqb_spec 30 n); [subst; tauto|].
+      destruct (N.eqb_spec 20 n); [subst; tauto|]. destruct (N.eqb_spec 10 n); [subst; tauto|].
+      exfalso. apply H. reflexivity.
+  - reflexivity.
+  - split; intros name; reflexivity.
+  - reflexivity.
+  - split; [reflexivity | constructor].
+  - exists 10%N, [SGosub 30%N; SPrint [PExpr (XVar vI); PSemi]], [TGosub; TNumber n30; TColon; TPrint; TSymbol vI; TSemicolon],
+      [TGosub; TNumber n30; TColon; TPrint; TSymbol vI; TSemicolon].
+    split; [reflexivity|]. split; [vm_compute; reflexivity|]. split; [reflexivity|]. split; [reflexivity|].
+    exact ex2_line10.
+Qed.
+Example ex2_runs : exists st', rrun 8 ex2_p 40 (0,0) (r_init 0) = Done st' /\ r_out st' = [bs "1"]
+  /\ reach (fun s => state s = Idle /\ outputs s = map OPrint [bs "1"]) ex2_s.
+Proof.
+  pose proof (fragment_simulation 8 ex2_p [] 40 (0,0) (r_init 0) ex2_s ex2_sim) as H.
+  destruct (rrun 8 ex2_p 40 (0,0) (r_init 0)) as [pc st'|st'|er l st'|] eqn:E; try (vm_compute in E; discriminate).
+  exists st'. split; [reflexivity|].
+  assert (Ho : r_out st' = [bs "1"]).
   { vm_compute in E. inversion E. reflexivity. }
   split; [exact Ho|]. unfold after_step in H.
   eapply reach_bind; [exact H|]. intros s' [A B]. apply reach_now. split; [exact A|]. rewrite B, Ho. reflexivity.
